@@ -34,6 +34,20 @@ def utils_oracle(obs, result, minmax, rng):
     for idx in idxs:
         for iters in subsets:
             its = list(range(n_gen)) if iters is None else iters
+            # the requested iterations are handed over in the sequence types users have at hand (list, tuple, numpy integer
+            # array, list of numpy integers, a range when contiguous); one-shot iterators are outside the documented
+            # `list[int]` and are not used
+            form = rng.randrange(5)
+            if iters is not None:
+                import numpy as _np
+                if form == 1:
+                    iters = tuple(iters)
+                elif form == 2:
+                    iters = _np.array(iters, dtype=_np.int64)
+                elif form == 3:
+                    iters = [_np.int32(i) for i in iters]
+                elif form == 4 and len(its) > 1 and all(b - a == 1 for a, b in zip(its, its[1:])):
+                    iters = range(its[0], its[-1] + 1)
             try:
                 trend = pv.agent_trend(result, idx, iters)
                 posn = pv.agent_position(result, idx, iters)
